@@ -558,6 +558,8 @@ func init() {
 		o.fpsEmit(mk("VerifyPowershell", "", "ps_ver_lo", "(start_len : Z)", "Z", vfL), w, f)
 		w, f = fpsAssign("j", 0)
 		o.fpsEmit(mk("VerifyPowershell", "", "ps_ver_hi", "(lstr_len end_len : Z)", "Z", vfL), w, f)
+		w, f = fpsCond("if", "j < i", 0)
+		o.fpsEmit(mk("VerifyPowershell", "", "ps_ver_overlap", "(i j : Z)", "bool", map[string]string{"i": "i", "j": "j"}), w, f)
 		// MakePatch
 		mpL := map[string]string{"si.start": "sty_start", "si.end": "sty_end", "b64[i:j]": "chunk", "i": "i", "j": "j", "len(b64)": "b64_len",
 			"psBegin": "ps_begin", "psEnd": "ps_end"}
